@@ -7,10 +7,10 @@ use molt::types::*;
 use std::collections::hash_map::DefaultHasher;
 use std::hash::{Hash, Hasher};
 
-const POOL: [&str; 30] = [
+const POOL: [&str; 33] = [
     "", "0", "1", "-1", "5", " 7 ", "0x1F", "+3", "--5", "9223372036854775807", "-9223372036854775808",
     "9223372036854775808", "1.5", "5.0", "1e3", ".5", "5.", "Inf", "-inf", "NaN", "true", "YES", "off", "no",
-    "a b c", "a {b c} d", "k v k2 {v 2}", "{", "a\"b", "x(1)",
+    "a b c", "a {b c} d", "k v k2 {v 2}", "{", "a\"b", "x(1)", "a 1 b 2 a 3", "k v k w", "0x10",
 ];
 const REQS: [&str; 8] = ["str", "int", "float", "bool", "list", "dict", "varname", "script"];
 
@@ -111,7 +111,7 @@ pub fn gen(tier: &str, seed: u64) -> Gen {
             level = next;
         }
     }
-    fams.push((format!("all conversion-request sequences of length<={} over 8 views on a value and its clone, 30 strings", maxlen), nreq, !thorough));
+    fams.push((format!("all conversion-request sequences of length<={} over 8 views on a value and its clone, 33 strings (incl. dictionaries with repeated keys)", maxlen), nreq, !thorough));
     // equality and hashing
     let mut ne = 0;
     for a in &POOL {
@@ -125,7 +125,14 @@ pub fn gen(tier: &str, seed: u64) -> Gen {
         cases.push(tag("eqint", vec![ti(*z), ts(&format!(" {}", z))]));
         ne += 2;
     }
-    fams.push(("equality / hash pairs".to_string(), ne, true));
+    // equality after every typed view has been requested on both sides: different spellings of
+    // one number, one boolean, one list or one dictionary stay different values
+    for (a, b) in &[("0x10", "16"), (" 7", "+7"), ("1", "1.0"), ("1.0", "1.00"), ("true", "1"), ("a b", "a  b"),
+                    ("{a} b", "a b"), ("k v k w", "k w"), ("5", "5"), ("0x1F", "0x1f"), ("yes", "true"), ("1e3", "1000.0")] {
+        cases.push(tag("eqv", vec![ts(a), ts(b)]));
+        ne += 1;
+    }
+    fams.push(("equality / hash pairs, fresh and after all typed views were requested".to_string(), ne, true));
     (cases, fams)
 }
 
@@ -206,6 +213,27 @@ pub fn run(case: &Term) -> Term {
                 stable = stable && v.as_str().as_ptr() as usize == p0 && v.as_str() == s0 && c.as_str() == s0;
             }
             tl(vec![tl(outs), tb(stable)])
+        }
+        "eqv" => {
+            // compare fresh, then after each single typed view was requested on both sides, then
+            // after all of them: every comparison must give the same answer as the fresh one
+            let fresh = Value::from(case.nth(1).as_str()) == Value::from(case.nth(2).as_str());
+            let mut same = true;
+            let mut hash_eq = true;
+            for k in 0..6 {
+                let a = Value::from(case.nth(1).as_str());
+                let b = Value::from(case.nth(2).as_str());
+                for v in &[&a, &b] {
+                    if k == 0 || k == 5 { let _ = v.as_int(); }
+                    if k == 1 || k == 5 { let _ = v.as_float(); }
+                    if k == 2 || k == 5 { let _ = v.as_bool(); }
+                    if k == 3 || k == 5 { let _ = v.as_list(); }
+                    if k == 4 || k == 5 { let _ = v.as_dict(); }
+                }
+                same = same && (a == b) == fresh;
+                hash_eq = hash_eq && (h(&a) == h(&b)) == fresh;
+            }
+            tl(vec![tb(if same { fresh } else { !fresh }), tb(if hash_eq { fresh } else { !fresh })])
         }
         "eq" => {
             let a = Value::from(case.nth(1).as_str());
